@@ -160,7 +160,7 @@ stretch, whatever the new list is. (`AD.Sep` speaks about the old snapshot and t
 evaluates its decidable form `AD.sepB` on the declarations of every real snapshot.) -/
 theorem untouched_neighbours_left_alone (lo hi : Nat) (kids : List AD.AV) (regs : List AD.Rg) (fts : List AD.Fate)
     (new : List AD.AV) (hsep : AD.sepB lo hi kids regs fts = true) :
-    ∀ r ∈ (AD.walkFates regs fts kids new).1, r.stop ≤ lo ∨ r.pos = 0 ∨ hi ≤ r.pos :=
+    ∀ r ∈ (AD.walkFates regs fts kids new).1, r.stop ≤ lo ∨ hi ≤ r.pos :=
   AD.walkFates_clear lo hi kids regs fts new (AD.sepB_sound lo hi kids regs fts hsep)
 
 /-- **Unchanged syntax reports nothing**: when the new tree agrees with the old snapshot up to positions and
@@ -209,15 +209,70 @@ theorem untouched_elements_paired_with_themselves (old new : List AD.AV) (kept :
     exact htwins i k old[i] new[k] (by simp [hi]) (by simp [hk'']) hik
   · exact hrun
 
-/-- a region that keeps clear of a stretch in this sense is `clearOf` it: the link to `respects` above -/
-theorem clear_region_respects (lo hi : Nat) (r : AD.Rg) (h : r.stop ≤ lo ∨ r.pos = 0 ∨ hi ≤ r.pos) :
-    clearOf ⟨r.pos, r.stop⟩ ⟨lo, hi⟩ = true := by
+/-- a region that keeps clear of a stretch in this sense is `strongClear` of it: the hypothesis of `changelog_keeps_clear` -/
+theorem clear_region_strong (lo hi : Nat) (r : AD.Rg) (h : r.stop ≤ lo ∨ hi ≤ r.pos) :
+    strongClear ⟨r.pos, r.stop⟩ ⟨lo, hi⟩ = true := by
+  unfold strongClear
+  simp only [Bool.or_eq_true, decide_eq_true_eq]
+  rcases h with h | h
+  · exact Or.inl (Or.inl h)
+  · exact Or.inl (Or.inr h)
+
+/-- what `soundOutB` tests: every interval the changelog returned is non-empty and holds changed positions only -/
+theorem soundOutB_spec (out plus minus : List Iv) (h : soundOutB out plus minus = true) :
+    ∀ iv ∈ out, iv.s < iv.e ∧ ∀ p, iv.s ≤ p → p < iv.e → changedAt plus minus p = true := by
+  intro iv hiv
+  have h1 := (List.all_eq_true.1 h) iv hiv
+  simp only [Bool.and_eq_true, decide_eq_true_eq] at h1
+  refine ⟨h1.1, fun p hp1 hp2 => ?_⟩
+  have := (List.all_eq_true.1 h1.2) p (by
+    rw [List.mem_range'_1]
+    omega)
+  exact this
+
+/-- **From the regions astdiff reports to the intervals the comment filter sees.** `ChangedIntervals` is the set of
+positions recorded as changed minus those recorded as unchanged (`changedAt`; the intervals the real changelog returns
+are tested against it on every run: `soundOutB`, and compared with the model's own canonical list). If every recorded
+region keeps clear of a non-empty extent — with no exemption for regions starting at NoPos — so does every interval
+the changelog returns, whatever was recorded as unchanged. -/
+theorem changelog_keeps_clear (plus minus out : List Iv) (x : Extent) (hx : x.s < x.e)
+    (hs : soundOutB out plus minus = true) (hc : ∀ r ∈ plus, strongClear r x = true) :
+    ∀ iv ∈ out, clearOf iv x = true := by
+  intro iv hiv
+  obtain ⟨hval, hpos⟩ := soundOutB_spec out plus minus hs iv hiv
   unfold clearOf
   simp only [Bool.or_eq_true, beq_iff_eq, decide_eq_true_eq]
-  rcases h with h | h | h
-  · exact Or.inl (Or.inr h)
-  · exact Or.inl (Or.inl h)
-  · exact Or.inr h
+  by_cases h1 : iv.e ≤ x.s
+  · exact Or.inl (Or.inr h1)
+  by_cases h2 : x.e ≤ iv.s
+  · exact Or.inr h2
+  exfalso
+  -- a position that lies in the interval and in the extent
+  have hp := hpos (max iv.s x.s) (Nat.le_max_left _ _) (by
+    rcases Nat.le_total iv.s x.s with h | h
+    · rw [Nat.max_eq_right h]; omega
+    · rw [Nat.max_eq_left h]; exact hval)
+  simp only [changedAt, Bool.and_eq_true, covers, List.any_eq_true, decide_eq_true_eq] at hp
+  obtain ⟨⟨r, hr, hrp⟩, _⟩ := hp
+  have hcl := hc r hr
+  simp only [strongClear, Bool.or_eq_true, decide_eq_true_eq] at hcl
+  have hm1 : x.s ≤ max iv.s x.s := Nat.le_max_right _ _
+  have hm2 : max iv.s x.s < x.e := by
+    rcases Nat.le_total iv.s x.s with h | h
+    · rw [Nat.max_eq_right h]; exact hx
+    · rw [Nat.max_eq_left h]; omega
+  rcases hcl with (h | h) | h <;> omega
+
+/-- the same for a list of extents: `respects`, the premise of `untouched_declaration_keeps_comments` -/
+theorem changelog_respects (plus minus out : List Iv) (untouched : List Extent)
+    (hne : ∀ x ∈ untouched, x.s < x.e) (hs : soundOutB out plus minus = true)
+    (hc : ∀ r ∈ plus, ∀ x ∈ untouched, strongClear r x = true) : respects out untouched = true := by
+  unfold respects
+  rw [List.all_eq_true]
+  intro iv hiv
+  rw [List.all_eq_true]
+  intro x hx
+  exact changelog_keeps_clear plus minus out x (hne x hx) hs (fun r hr => hc r hr x hx) iv hiv
 
 /-- non-vacuity: two declarations, the first paired as identical, the second deleted; the second and its
 region `[20, 40)` lie right of the first one's extent `[10, 20)` -/
